@@ -1617,8 +1617,8 @@ def where(cond, *args):
     if not args:
         c = cond if isinstance(cond, ndarray) else asarray(cond)
         if c._is_masked:
-            # np.where(masked) -> nonzero of filled(0)
-            c = filled(c, False)
+            # C-level PyArray_Where: works on the raw data buffer of the (masked) condition
+            c = c._data_arr()
         if c._dt.kind != "b":
             c = c.astype("bool")
         if c.a.ndim != 1:
